@@ -1378,6 +1378,7 @@ class Atoms:
                      atom_type_masses=self.atom_type_masses,
                      atom_type_elements=self.atom_type_elements,
                      atom_type_labels=self.atom_type_labels,
+                     pair_coeffs=self.pair_coeffs,
                      groups=np.take(self.groups, idx, axis=0),
                      cell=self.cell)
 
